@@ -1,5 +1,6 @@
 import HermesModel.Proto
 import HermesModel.Evatra
+import Driver.PetOps
 open Hermes Hermes.Proto
 
 namespace Hermes.Driver
@@ -37,6 +38,8 @@ def evatraOps (toks : List String) : String :=
   match toks with
   | "evatra.part" :: rest => (evatraPart rest).getD "bad-op"
   | "evatra.redev" :: rest => (evatraRedev rest).getD "bad-op"
+  | "evatra.full" :: rest => (fullDay rest).getD "bad-op"            -- Driver/PetOps.lean
+  | "evatra.fullsites" :: rest => (fullSites rest).getD "bad-op"
   | _ => "bad-op"
 
 end Hermes.Driver
